@@ -5,11 +5,17 @@ ASSUMPTIONS = [
     "kernel-level claim (E2, CrossHair/z3): EBLIFParser.get_port_name_and_index reads back name[i] -> (name, i) and a bare "
     "name -> (name, 0) exactly as the composer prints them (find_connected_wire_info / port.name + '[' + str(i) + ']'), for every "
     "name over 'aB9_[]:' up to the length bound and i in 0..120, and raises nothing but ValueError on other bracket text",
+    "E1 step lemma (.conn): EBLIFParser.merge_wires(w1, w2) from an arbitrary well-formed model (two cables, three wires, port and "
+    "instance pins attached symbolically): the new net carries exactly the union of both pin sets, both old wires are gone, other "
+    "nets untouched, model well-formed; python's index-based list iteration under mutation is modelled",
     "outside: statement-order glue, line continuation, .names covers, whole files",
 ]
 
 
 def jobs(tier):
     tmo = 120 if tier == "quick" else 900
-    return [e2job("C18", "c18", fn, tmo, tier) for fn in
-            ("h_indexed_name_round_trip", "h_scalar_name_is_index_zero", "h_never_crashes_on_bracket_text")]
+    out = [e2job("C18", "c18", fn, tmo, tier) for fn in
+           ("h_indexed_name_round_trip", "h_scalar_name_is_index_zero", "h_never_crashes_on_bracket_text")]
+    out.append(dict(name="C18/merge_wires", engine="E1/symheap", module="vf.e1.eblif_jobs", func="merge_wires_job",
+                    timeout=1500, args=dict(tier=tier)))
+    return out
